@@ -65,6 +65,7 @@ def _run(W, ops, exitmode, tmo, force):
     pool.force = force
     runs = 0
     stuck = False
+    stuck_w = [None]
     has_thread = False
     body_exc = None
 
@@ -138,6 +139,9 @@ def _run(W, ops, exitmode, tmo, force):
                         if pr is not None and not pr.exited:
                             pr._sigkill()
                             s.sleep(1)
+                            if w is stuck_w[0]:
+                                stuck = False       # the stuck child is the one that was killed
+                                stuck_w[0] = None
                             break
             elif op == "restart-workers":
                 if stuck and has_thread:
@@ -174,6 +178,7 @@ def _run(W, ops, exitmode, tmo, force):
                         except WorkerClosedError:
                             continue            # alive but already closed (e.g. by a restart that could not stop it): try the next one
                         stuck = True
+                        stuck_w[0] = w
                         s.sleep(1)
                         break
         return None
